@@ -177,6 +177,7 @@ func (e *executor) wlCell(a opArgs, lean string) string {
 			out := "cell-generation-failed"
 			if wlPremise(wl) {
 				out += statMarginal(r, readBack(wl), L, a["words"]+a["cap"]+a["sep"])
+				out += statCaps(r, readBack(wl), L, scheme, a["words"]+a["cap"]+a["L"])
 			}
 			capt.take()
 			return out
@@ -212,6 +213,7 @@ func (e *executor) wlCell(a opArgs, lean string) string {
 		return out
 	}
 	out += statMarginal(r, readBack(wl), L, a["words"]+a["cap"]+a["sep"])
+	out += statCaps(r, readBack(wl), L, scheme, a["words"]+a["cap"]+a["L"])
 	capt.take()
 	if allcap && maxm != minm {
 		out += " CELL-FAIL=not-uniform-although-all-capitalisable"
@@ -342,6 +344,7 @@ func statCaps(r *spg.WLRecipe, kept []string, L int, scheme string, seedText str
 		}
 	}
 	counts := make([]int, L)
+	patterns := map[uint32]int{} // scheme random, up to 5 positions: every subset of positions
 	tape := make([]uint32, 6*L+32)
 	for n := 0; n < N; n++ {
 		for i := range tape {
@@ -358,9 +361,25 @@ func statCaps(r *spg.WLRecipe, kept []string, L int, scheme string, seedText str
 		if len(atoms) != L {
 			return ""
 		}
+		var pat uint32
 		for i, a := range atoms {
 			if !lower[a] {
 				counts[i]++
+				if i < 32 {
+					pat |= 1 << uint(i)
+				}
+			}
+		}
+		patterns[pat]++
+	}
+	if scheme == "random" && L <= 5 {
+		// "under 'random' every subset of positions is equally likely" — the empty one included
+		pq := 1 / float64(uint(1)<<uint(L))
+		pexp := float64(N) * pq
+		psig := math.Sqrt(float64(N) * pq * (1 - pq))
+		for pat := uint32(0); pat < 1<<uint(L); pat++ {
+			if math.Abs(float64(patterns[pat])-pexp) > 9*psig {
+				return fmt.Sprintf(" CELL-FAIL=capitalisation-pattern(subset=%b,count=%d,of=%d,expected=%.0f)", pat, patterns[pat], N, pexp)
 			}
 		}
 	}
